@@ -18,7 +18,7 @@ from concurrent.futures import ThreadPoolExecutor
 VERIF = os.path.dirname(os.path.dirname(os.path.abspath(__file__)))
 REPO = os.environ.get("VERIF_REPO", "/repo")
 REF = os.path.join(VERIF, "ref", "opus-b5b845fb")
-BUILD = os.path.join(VERIF, "build")
+BUILD = os.environ.get("VERIF_BUILD", os.path.join(VERIF, "build"))
 JOBS = int(os.environ.get("VERIF_JOBS", "16"))
 
 CLANG = "clang"
